@@ -23,7 +23,14 @@ RULE = ("(1) the parameter splitter on every text of length <= 5 over {a , space
         "<list>[a:b].<key | key.key | key[0]> over every list of hashes of 4 fixed + 60 seeded documents (3-5 members, equal "
         "members likely; every slice of the fixed, 4 per seeded list; mostly >= 2 members selected; both notations): "
         "parent(n) n in default,0..4, name() of each climbed ancestor, name() of the reached nodes, and each parent() result "
-        "must be held by its reported parent under its reported parentref; has_child on hashes, lists, nulls, scalars; "
+        "must be held by its reported parent under its reported parentref; parent(n) AS THE FILTER OF A WILDCARD: "
+        "<container>.*[parent(n)] and <container>.**[parent(n)] for every non-empty container (the root included, so the selected "
+        "nodes start at depth 1) of the 14 + 6 fixed and 40 seeded documents, n in default, 0..4 up to one level above the root, "
+        "name() of each climbed ancestor, and chained climbs ...*[parent(m)][parent(n)] that end at the root or one level above it, "
+        "a third in forward-slash notation - expected: the n-th ancestor of every child (*) / of every node at or below the "
+        "container, a node before its children (**), in order, and a refusal only where such a node has fewer than n ancestors "
+        "(the wildcards evaluate the following segment twice, as a test and for the result: the answer must not depend on it); "
+        "has_child on hashes, lists, nulls, scalars; "
         "keys that a parameter can only name quoted or escaped (17 keys holding literal backslashes, commas, quotes, inner / edge "
         "blanks) as the attribute / child key of Arrays-of-Hashes, hashes of hashes and single hashes of <= 3 members, next to "
         "members holding a look-alike key (the key without its backslashes, with them doubled, unquoted, cut at the comma ...) "
@@ -325,7 +332,7 @@ def opt_sampled(path, empty):
 def null_in_front(c):
     """Is a node the keyword is applied to null?  The default retrieval mode treats a null node as one still to be built
     and hands it on without applying the segment (C09's subject): not judged."""
-    for at in c["ats"]:
+    for at in c["ats"] + c.get("via", []):       # `via`: nodes an earlier segment of the path selected and handed on
         j = c["doc"]
         for kind, ref in at:
             if j["k"] == "map":
@@ -431,7 +438,8 @@ def kw_chunk(cases):
             want = [(r[1] if r is not None else None) for r in mnames]
             got = im.get("names", []) if "err" not in im else []
             if got != want:
-                viol.append(("kw-mismatch:NAME", what + " yielded %s; held under %s" % (got, want), case))
+                viol.append(("kw-mismatch:NAME", what + " %s; held under %s" % (
+                    "was refused (YAML Path error)" if "err" in im else "yielded %s" % got, want), case))
                 continue
             if want and want[0] is not None:
                 stats["nontrivial"] += 1
@@ -444,7 +452,8 @@ def kw_chunk(cases):
         got = im.get("nodes", []) if "err" not in im else []
         if got != mnodes:
             sig = "kw-mismatch:%s%s:%s" % ("!" if c["inv"] else "", c["kw"], c["fam"].split("/")[0])
-            viol.append((sig, what + " yielded %s; by definition %s" % (got, mnodes), case))
+            viol.append((sig, what + " %s; by definition %s" % (
+                "was refused (YAML Path error)" if "err" in im else "yielded %s" % got, mnodes), case))
             continue
         if c.get("pref") and "err" not in im and False in im.get("held", []):
             bad = [a for a, h in zip(got, im["held"]) if h is False]
@@ -777,6 +786,61 @@ def deep_parent_cases(rng, nrandom):
                                   "members": 0, "reach": reach})
             cases.append({"fam": "name/deep-traversal-" + pk, "doc": dj, "path": path, "ats": ats, "kw": "NAME", "inv": False,
                           "params": "", "members": 0, "reach": reach})
+    return cases
+
+
+def fslash(path):
+    """A dot-notation key / index path (plain keys) in forward-slash notation."""
+    return "/" + path.replace(".", "/")
+
+
+def wild_parent_cases(rng, nrandom):
+    """parent(n) as the FILTER of a wildcard: `<container>.*[parent(n)]` and `<container>.**[parent(n)]` for every non-empty
+    container of PARENT_DOCS, DEEP_DOCS and `nrandom` seeded documents (root included, so the selected nodes start at depth 1),
+    n in default, 0..4; name() of each climbed ancestor; chained climbs `…*[parent(m)][parent(n)]` (the second climb may reach
+    the root or pass it); a third of the paths in forward-slash notation.  `*` followed by a segment selects every child for
+    which that segment matches, `**` every node at or below the container (a node before its children), and parent(n)
+    matches every node that has n ancestors: so the result is the n-th ancestor of each of those nodes, in order, and a
+    refusal exactly when one of them lies less than n levels below the root.  The wildcards evaluate the following segment
+    once as a test and once for the result - the answer must not depend on that."""
+    cases = []
+    docs = list(PARENT_DOCS) + list(DEEP_DOCS)
+    while len(docs) < len(PARENT_DOCS) + len(DEEP_DOCS) + nrandom:
+        d = random_deep_doc(rng)
+        if isinstance(d, (dict, list)) and d:
+            docs.append(d)
+    k = 0
+    for d in docs:
+        dj = plain_to_json(d)
+        nodes = list(all_nodes(d))
+        for addr, path in nodes:
+            sub = [a for a, _p in nodes if a[:len(addr)] == addr]
+            kids = [a for a in sub if len(a) == len(addr) + 1]
+            if not kids:
+                continue
+            depth = len(addr)
+            for star, ats, fam in ((path + ".*" if path else "*", kids, "wildcard"),
+                                   (path + ".**" if path else "**", sub, "deep-wildcard")):
+                k += 1
+                if k % 3 == 0:
+                    star = fslash(star)
+                least = min(len(a) for a in ats)
+                for n in ["", "0", "1", "2", "3", "4"]:
+                    steps = 1 if n == "" else int(n)
+                    if steps > least + 1:
+                        continue
+                    cases.append({"fam": "parent/" + fam, "doc": dj, "path": star, "ats": ats, "kw": "PARENT", "inv": False,
+                                  "params": n, "members": 0})
+                    if steps <= least:
+                        up = [a[:len(a) - steps] for a in ats]
+                        cases.append({"fam": "name/" + fam, "doc": dj, "path": "%s[parent(%s)]" % (star, n), "ats": up,
+                                      "kw": "NAME", "inv": False, "params": "", "members": 0, "via": ats})
+                        # a second climb from the ancestors the first one reached: up to the root, and one level too far
+                        for n2 in ["", "0", "2"] + ([str(least - steps)] if least - steps > 2 else []):
+                            s2 = 1 if n2 == "" else int(n2)
+                            if s2 <= least - steps + 1:
+                                cases.append({"fam": "parent/%s-chained" % fam, "doc": dj, "path": "%s[parent(%s)]" % (star, n),
+                                              "ats": up, "kw": "PARENT", "inv": False, "params": n2, "members": 0, "via": ats})
     return cases
 
 
@@ -1224,6 +1288,9 @@ def run(chk: core.Check):
     cases = seq_cases(5) + hash_cases(4, rng, tier) + parent_cases() + odd_cases()
     cases += deep_parent_cases(rng, 60 if tier == "quick" else 600)
     cases += slice_parent_cases(random.Random(chk.seed * 17 + 1), 60 if tier == "quick" else 600)
+    wild = wild_parent_cases(random.Random(chk.seed * 23 + 5), 40 if tier == "quick" else 400)
+    chk.extra_cov["wildcard_parent_cases"] = len(wild)
+    cases += wild
     cases += random_cases(rng, 3000 if tier == "quick" else 100000)
     odd = oddkey_cases(random.Random(chk.seed * 31 + 7), tier)
     chk.extra_cov["oddkey_cases"] = len(odd)
